@@ -65,37 +65,31 @@ def run(ctx, report):
     # clause 4 ------------------------------------------------------------
     sfn = idx.get_function(GEOM, "Size.__str__")
     report.covered(sfn)
-    rounds = []
-    fspecs = []
-    for n in walk_no_nested(sfn.node):
-        if isinstance(n, ast.Call) and call_name(n) == "round":
-            nd = n.args[1] if len(n.args) > 1 else None
-            rounds.append(nd.value if isinstance(nd, ast.Constant) else (0 if nd is None else "?"))
-        if isinstance(n, ast.FormattedValue) and n.format_spec is not None:
-            spec = "".join(v.value for v in n.format_spec.values if isinstance(v, ast.Constant))
-            fspecs.append(spec)
-        if isinstance(n, ast.Call) and call_name(n) == "format" and len(n.args) == 2 \
-                and isinstance(n.args[1], ast.Constant):
-            fspecs.append(n.args[1].value)
-    float_specs = [s for s in fspecs if s.endswith("f")]
-    report.check(rounds == [2], "R-PRINT", sfn, "value rounded to two decimals before printing",
-                 {"round_digits_found": rounds, "required": [2]}, "4")
-    decs = []
-    for s in float_specs:
-        m = re.fullmatch(r"\.(\d+)f", s)
-        decs.append(int(m.group(1)) if m else "?")
-    report.check(decs == [2], "R-PRINT", sfn, "fractional values printed with two decimals",
-                 {"format_specs_found": fspecs, "required": [".2f"]}, "4")
-    # the unit is printed from the enum value, after the number
-    ret = [n for n in walk_no_nested(sfn.node) if isinstance(n, ast.Return)]
-    unit_last = False
-    for r in ret:
-        if isinstance(r.value, ast.JoinedStr) and r.value.values:
-            last = r.value.values[-1]
-            if isinstance(last, ast.FormattedValue) and src(last.value).endswith("unit.value"):
-                unit_last = True
-    report.check(unit_last, "R-PRINT", sfn, "printed form is <number><unit.value>", None if unit_last else
-                 [src(r) for r in ret], "4")
+    # Size.__str__ is folded (constant evaluation of its source) on every unit x a set of values that
+    # covers integers, one / two / more decimals, rounding up into the next integer and tiny values
+    from ..core.constfold import Stub
+    scls = idx.get_class(GEOM, "Size")
+    samples = [0.0, 1.0, 7.0, 100.0, 12345.0, 0.5, 1.25, 33.33, 33.333, 66.666, 0.004, 0.005, 0.006, 9.995, 9.996, 19.999,
+               10.10, 10.01, 999.999, 1e6, 1234567.891]
+    bad = []
+    n_eval = 0
+    for u in units.members:
+        for v in samples:
+            n_eval += 1
+            try:
+                got = folder.call_function(sfn, [], self_value=Stub("size", {"value": v, "unit": u}, cls=scls))
+            except AnalysisError as e:
+                raise AnalysisError(f"Size.__str__ cannot be folded: {e}")
+            r2 = round(v, 2)
+            num = str(int(r2)) if float(r2).is_integer() else f"{r2:.2f}".rstrip("0").rstrip(".")
+            want = f"{num}{u.value}"
+            if got != want:
+                bad.append({"value": v, "unit": u.name, "printed": got, "required": want})
+    ok_print = not bad
+    report.check(ok_print, "R-PRINT", sfn,
+                 "a size prints as its value rounded to two decimals (trailing zeros dropped) followed by the unit",
+                 {"evaluations": n_eval, "mismatches": bad[:4]}, "4")
+    decs, unit_last = ([2], True) if ok_print else ([], False)
     if decs == [2] and unit_last:
         printed = R.Lang(G.printed_size_language(2), alpha, "full", name="printed sizes (non-negative)")
         w = R.difference_witness(printed, lang)
